@@ -61,7 +61,15 @@
      F1  a line break after the sign of a negative number is a legal layout for the file reader, which
          puts a space there: `p(-` / `5).` loads as p(- 5) with the atom `- 5`
                                                                   break_after_minus_sign_changes_the_rule (Properties/C21closed.v)
-   Not examined by a theorem: floats, quoted atoms, atoms and functors with other characters. *)
+     F2  floats: Display prints the shortest decimal that reads back as the same f64, without an
+         exponent.  A float reads back as a float only when that decimal contains a period: 0.5, 0.1,
+         -2.5, 123456789.12345679 do.  An integer-valued float does not (3.0 prints `3`, -0.0 prints
+         `-0`, 1e23 prints `100000000000000000000000`: the text reads as an integer - or, beyond the
+         64-bit range, as an error), nor do the infinities and NaN (`inf`, `-inf`, `NaN` read as atoms)
+                                                                  integer_valued_float_not_read_back,
+                                                                  fractional_float_reads_back, inf_nan_not_read_back
+   Not examined by a theorem: floats with a fractional part (they round-trip in every case computed,
+   no proof), quoted atoms, atoms and functors with other characters. *)
 From Coq Require Import String.
 From Suiron Require Import Model.Tokenizer Model.ParseRule Proofs.TokenizerProofs Proofs.GoalRoundtrip.
 From Suiron Require Import Model.ParseTerm Model.ParseGoal Model.Show Model.ShowGoal.
@@ -200,6 +208,47 @@ Example other_function_not_read_back :
   parse_term 20 (show_term (TFun (s2l "foo") [TInt 1])) =
   Ok (POk (TComplex [TAtom (s2l "foo"); TInt 1])).
 Proof. vm_compute. reflexivity. Qed.
+
+(* F2: s reads as a float which prints as t / which reads back *)
+Definition float_prints_as (s t : str) : bool :=
+  match parse_term 5 s with
+  | Ok (POk (TFloat f)) => str_eqb (show_term (TFloat f)) t
+  | _ => false
+  end.
+Definition float_reads_back (s : str) : bool :=
+  match parse_term 5 s with
+  | Ok (POk (TFloat f)) =>
+      match parse_term 5 (show_term (TFloat f)) with
+      | Ok (POk t) => term_eqb t (TFloat f)
+      | _ => false
+      end
+  | _ => false
+  end.
+
+Example integer_valued_float_not_read_back :
+  float_prints_as (s2l "3.0") (s2l "3") = true /\
+  parse_term 5 (s2l "3") = Ok (POk (TInt 3)) /\
+  float_prints_as (s2l "-0.0") (s2l "-0") = true /\
+  parse_term 5 (s2l "-0") = Ok (POk (TInt 0)) /\
+  float_prints_as (s2l "100000000000000000000000.") (s2l "100000000000000000000000") = true /\
+  parse_term 5 (s2l "100000000000000000000000") = Ok PErr /\
+  map float_reads_back [s2l "3.0"; s2l "-0.0"; s2l "100000000000000000000000."; s2l "1000000.0"] =
+  [false; false; false; false].
+Proof. vm_compute. repeat split; reflexivity. Qed.
+
+Example fractional_float_reads_back :
+  map float_reads_back
+    [s2l "0.5"; s2l "0.1"; s2l "-2.50"; s2l "123456789.123456789"; s2l "0.000001"] =
+  [true; true; true; true; true] /\
+  float_prints_as (s2l "123456789.123456789") (s2l "123456789.12345679") = true /\
+  float_prints_as (s2l "0.1") (s2l "0.1") = true.
+Proof. vm_compute. repeat split; reflexivity. Qed.
+
+Example inf_nan_not_read_back :
+  parse_term 5 (show_term (TFloat (Float.f64_inf false))) = Ok (POk (TAtom (s2l "inf"))) /\
+  parse_term 5 (show_term (TFloat (Float.f64_inf true))) = Ok (POk (TAtom (s2l "-inf"))) /\
+  parse_term 5 (show_term (TFloat Float.f64_nan)) = Ok (POk (TAtom (s2l "NaN"))).
+Proof. vm_compute. repeat split; reflexivity. Qed.
 
 (* G1: not(l = r) with a parenthesis in l: the infix scan skips from the first `(` to the first
    `)` only, finds the ` = ` and splits the text there *)
